@@ -239,6 +239,14 @@ _c17("c17_ffi_call", "FastFixedIn<f32> vs <f64> Nearest chunk 10: ramped change 
 _c17("c17_real_new_8", "SincFixedOut::<f32>::new vs ::<f64>::new (real table generation, scalar kernel), sinc_len 8: every getter equal", "none", stubs=["CpuFeature::is_detected -> false"])
 _c17("c17_ctor_sizes_8", "SincFixedOut::<f32>::new vs ::<f64>::new through make_interpolator with the table CONTENTS stubbed (sizes real), sinc_len 8, oversampling 2: every getter equal", "none", stubs=["CpuFeature::is_detected -> false", "make_sincs -> unit table"], cap=300)
 _c17("c17_ctor_sizes_20", "SincFixedIn::<f32>::new vs ::<f64>::new, table contents stubbed, sinc_len 20 (rounded up to 24 by make_interpolator), oversampling 1: every getter equal", "none", stubs=["CpuFeature::is_detected -> false", "make_sincs -> unit table"], cap=300)
+_c17("c17_ffo_linear_far_position", "FastFixedOut chunk 2 Linear, f32 vs f64, max_rel 64: stepped change to ratio 0.0199 (each frame ~50 input frames further), alternating 0/1 input, 2 calls: outputs within 16 f32 epsilons of the peak; counts and getters equal", "none (concrete; the solver evaluates the f32 and f64 arithmetic of the real code)", cap=600)
+_c17("c17_ffo_cubic_far_position", "FastFixedOut chunk 2 Cubic, f32 vs f64, max_rel 64: stepped change to ratio 0.0199 (each frame ~50 input frames further), alternating 0/1 input, 2 calls: outputs within 16 f32 epsilons of the peak; counts and getters equal", "none (concrete; the solver evaluates the f32 and f64 arithmetic of the real code)", cap=600)
+_c17("c17_ffo_quintic_far_position", "FastFixedOut chunk 2 Quintic, f32 vs f64, max_rel 64: stepped change to ratio 0.0199 (each frame ~50 input frames further), alternating 0/1 input, 2 calls: outputs within 16 f32 epsilons of the peak; counts and getters equal", "none (concrete; the solver evaluates the f32 and f64 arithmetic of the real code)", cap=600)
+_c17("c17_ffo_septic_far_position", "FastFixedOut chunk 2 Septic, f32 vs f64, max_rel 64: stepped change to ratio 0.0199 (each frame ~50 input frames further), alternating 0/1 input, 2 calls: outputs within 16 f32 epsilons of the peak; counts and getters equal", "none (concrete; the solver evaluates the f32 and f64 arithmetic of the real code)", cap=600)
+_c17("c17_ffi_linear_far_position", "FastFixedIn chunk 120 Linear, f32 vs f64, max_rel 64: stepped change to ratio 0.0199 (each frame ~50 input frames further), alternating 0/1 input, 2 calls: outputs within 16 f32 epsilons of the peak; counts and getters equal", "none (concrete; the solver evaluates the f32 and f64 arithmetic of the real code)", cap=600)
+_c17("c17_ffi_cubic_far_position", "FastFixedIn chunk 120 Cubic, f32 vs f64, max_rel 64: stepped change to ratio 0.0199 (each frame ~50 input frames further), alternating 0/1 input, 2 calls: outputs within 16 f32 epsilons of the peak; counts and getters equal", "none (concrete; the solver evaluates the f32 and f64 arithmetic of the real code)", cap=600)
+_c17("c17_ffi_quintic_far_position", "FastFixedIn chunk 120 Quintic, f32 vs f64, max_rel 64: stepped change to ratio 0.0199 (each frame ~50 input frames further), alternating 0/1 input, 2 calls: outputs within 16 f32 epsilons of the peak; counts and getters equal", "none (concrete; the solver evaluates the f32 and f64 arithmetic of the real code)", cap=600)
+_c17("c17_ffi_septic_far_position", "FastFixedIn chunk 120 Septic, f32 vs f64, max_rel 64: stepped change to ratio 0.0199 (each frame ~50 input frames further), alternating 0/1 input, 2 calls: outputs within 16 f32 epsilons of the peak; counts and getters equal", "none (concrete; the solver evaluates the f32 and f64 arithmetic of the real code)", cap=600)
 _c17("c17_real_new_20", "as above with sinc_len 20 (rounded up by the constructor), oversampling 1", "none", stubs=["CpuFeature::is_detected -> false"])
 _c17("c17_fto_call", "FftFixedOut<f32> vs <f64> 2->3 chunk 4 sub_chunks 2: getters, 1 call, counts, getters", "none", stubs=FFT_STUBS)
 _c17("c17_ffo_step", "FastFixedOut f32 vs f64 Nearest chunk 2: symbolic setter + 1 call on both", "ratio: every accepted f64 (D_full); ramp", tier="thorough")
@@ -320,6 +328,7 @@ _c06("c06_sfo_ramp_then_step", ["C06"], "SincFixedOut<f64>+Probe(2,2) Linear chu
 _c06("c06_ffo_ramp_then_step", ["C06"], "FastFixedOut<f64> Linear chunk 4: as above", "none (concrete)", cap=600)
 _c06("c06_sfo_after_ramp_grid", ["C06"], "SincFixedOut<f64>+Probe(8,2) Linear chunk 3: 2 warm-up calls, ramped change, the ramp chunk, then the chunk AFTER the ramp: spacing == 1/new from its first frame, windows on supplied data", "new ratio k/32 (D_grid), ramp = true")
 _c06("c07_ffi_slow", ["C07"], "FastFixedIn<f64> Linear chunk 7, constant ratio 0.1 (1/r = 10 > 7), 8 calls from the fresh state: uniform spacing across chunk boundaries, lag bound, at least 4 frames observed", "none (concrete slow ratio; the solver decides the safety checks and the float comparisons)")
+_c06("c08_ffo_tiny_chunk_line", ["C08"], "FastFixedOut<f64> Linear chunk 2, max_rel 4: 3 calls at ratio 1, stepped change to 4.0 (chunk < ratio: some calls need NO new input), 4 calls: instants uniformly 0.25 apart; at least one zero-input call observed", "none (concrete)", cap=900)
 _c06("c08_ffo_cubic_poly", ["C08"], "FastFixedOut<f64> Cubic chunk 3: input is a cubic polynomial of the frame index; 2 calls; every frame inside the stream equals the polynomial at -4+(j+1)/r within 1e-9", "ratio k/32 (D_grid)", tier="thorough")
 for _n, _t in (("c03_ffo_two_steps", "FastFixedOut<f64> Nearest chunk 2"), ("c03_sfo_two_steps", "SincFixedOut<f64>+Probe(8,1) Nearest chunk 2"), ("c03_ffi_two_steps", "FastFixedIn<f64> Nearest chunk 2 (4 warm-up calls; k/32 grid)")):
     HARNESSES[_n] = H("c03", ["C03", "C04"], tier="thorough", cap=1800, thorough_cap=3600, mem=8,
@@ -346,6 +355,7 @@ HARNESSES["c03_ffo_reset_plain"] = H("c03", ["C03", "C04"], cap=900, sym="ratio 
 _c05("c05_sfi_chunk_change_to3", "SincFixedIn<f64>+Probe(4,2) Linear, max chunk 8, ratio 1: 2 calls, set_chunk_size(3), 2 calls; strict probe and uniform instants", "none (concrete new size; the symbolic-size variant is thorough)")
 HARNESSES["c05_sfi_chunk_change"]["tier"] = "thorough"
 HARNESSES["c05_sfi_chunk_change"]["thorough_cap"] = 3600
+_c14("c14_ffi_changed", "FastFixedIn<f64> Linear chunk 10: stepped change to 2.0 or 0.5, 2 calls; every frame inside the stream: |j - (tau*ratio + output_delay())| <= max(1,ratio)+1", "direction of the change (2 concrete ratios)")
 _c14("c14_ffo_grid", "FastFixedOut<f64> Linear chunk 3: ratio set once, 2 calls; every frame inside the stream: |j - (tau*ratio + output_delay())| <= max(1,ratio)+1", "ratio k/32 (D_grid)")
 HARNESSES["c14_ffo"]["tier"] = "thorough"
 
